@@ -119,7 +119,7 @@ def expertHidden (own : AttrVal) (k : Option Int) : R Bool :=
 structure ShowOpts where
   expert : Option Int := none
   level : Int := 0
-  width : Int := 79
+  width : Int := Gen.defaultPrintWidth
   deriving Repr
 
 /-- the value lines of definition.show -/
